@@ -438,7 +438,11 @@ func (w *world) runScenario(sc *Scenario) int {
 		if si == len(sc.Steps)-1 || len(sc.Steps) <= 3 {
 			js["scenario"] = sc // a mismatch at an earlier step: the same seed regenerates scenario_no
 		}
-		em.Add(id, term, js, canon(sc, si), nontrivial)
+		if out.Misplaced {
+			run.Dist["fault-misplaced:case-not-recorded"]++
+		} else {
+			em.Add(id, term, js, canon(sc, si), nontrivial)
+		}
 
 		// ---- oracle
 		if !post.Present {
